@@ -1311,6 +1311,8 @@ def sprintf(ex, st, g, fmtv, argsv, pos):
             i += 2
             continue
         verb = f[i + 1:i + 2].decode()
+        if verb == 'w':
+            verb = 'v'    # Errorf wraps the operand; its text is that of %v (unwrapping is not modelled: errors.Is sees the outer error)
         if verb not in 'svdxqc':
             raise Unsupported('Sprintf verb %' + verb)
         if lit:
